@@ -325,6 +325,11 @@ const EXTRA_FUNCTIONS: &[&str] = &[
     "std.convert.to_string",
     "{ rec := (n: int) -> int { if n <= 0 { return 0 }; return n + rec(n - 1) }; rec }",
     "{ f := (f: int) -> int { return f + 1 }; f }",
+    // functions that mention their own name, of every arity (the call binds it)
+    "{ c := mut 3; down := () -> int { if *c <= 0 { return 0 }; c -= 1; return 1 + down() }; down }",
+    "{ me := () -> any { return me == me }; me }",
+    "{ rec2 := (a: int, b: int) -> int { if a <= 0 { return b }; return rec2(a - 1, b + 1) }; rec2 }",
+    "{ c := mut 0; it := () -> (bool, int) { c += 1; if *c % 2 == 1 { return it() }; return (*c < 9, *c) }; it }",
     "{ c := mut 0; () -> int { c += 1; return *c } }",
     "(a: int | string, b: [int]) -> any { return (a, b) }",
     "(m: mut int) -> int { m += 1; return *m }",
